@@ -1,11 +1,13 @@
 import OrasModel.Driver.G
 import OrasModel.Driver.V
 import OrasModel.Driver.R
+import OrasModel.Driver.Cp
 open Oras.Driver
 
 structure DState where
   g : G.St := {}
   v : V.St := {}
+  cp : Cp.St := {}
 
 def answer (r : Option (α × String × String)) (st : DState) (upd : α → DState) : DState × String :=
   match r with
@@ -21,6 +23,7 @@ def handle (st : DState) (line : String) : DState × String :=
   | "ref" :: rest => (match R.step rest with
       | some (m, s) => (st, s!"m={m} s={s}")
       | none => (st, "bad-op"))
+  | "cp" :: rest => answer (Cp.step st.cp rest) st (fun c => { st with cp := c })
   | "v" :: rest => answer (V.step st.v rest) st (fun v => { st with v := v })
   | _ => (st, "bad-op")
 
